@@ -54,6 +54,8 @@ type genConfig struct {
 	// HostState uses host.bump()/host.state: Go-side module state shared by every
 	// program that imports the module (only for engines that reset it between runs).
 	HostState bool
+	// ShadowBuiltins lets top-level statements rebind builtin names (len, int, string, …) that later statements call.
+	ShadowBuiltins bool
 	// GlobalVar declares the global GV (assigned and read by the script).
 	GlobalVar bool
 	// CallMark emits call sites of script functions as placeholders that are
@@ -796,6 +798,18 @@ func (g *gen) program() (string, []srcModule) {
 			g.declare(gvar{name: a, t: tInt})
 			g.declare(gvar{name: b, t: tAny})
 			g.addTop(st)
+			continue
+		}
+		if g.cfg.ShadowBuiltins && g.t.Bool(1, 6) {
+			// a user definition takes over a builtin name for the rest of the script
+			name := []string{"len", "int", "string", "typeName", "isError", "float", "append"}[g.t.Draw(7)]
+			body := []string{"return 42", "return \"shadowed\"", "return [x]", "return x"}[g.t.Draw(4)]
+			if g.t.Bool(1, 2) {
+				g.addTop(name + " := func(x, ...y) { " + body + " }\n")
+			} else {
+				g.addTop("var " + name + " = func(x, ...y) { " + body + " }\n")
+			}
+			g.addTop("log(" + name + "(\"abc\"), " + name + "(7))\n")
 			continue
 		}
 		g.addTop(g.stmt(0))
